@@ -1,63 +1,62 @@
 import MontePyVerif.Model.Links
 /-!
 Helper lemmas about `Model/Links.lean` for C16: what every container-updating helper guarantees
-(`Ext`: geometries untouched, containers only grow, shapes, members and links kept), the
+(`Ext`: geometries untouched, containers only grow, members and links kept), the
 specification of `_add_new_children_to_cell`, of the in-place operators and of path updates.
 -/
 namespace MontePyVerif.Links
 
-/-- no two distinct surfaces of the pool can be `==`: their shapes (type, constants, flags) differ -/
-def NoClones (st : St) : Prop := ∀ a b, st.sshape a = st.sshape b → a = b
-
-theorem memS_iff {st : St} (h : NoClones st) (s : ObjId) (l : List ObjId) : memS st s l = true ↔ s ∈ l := by
-  unfold memS
-  rw [List.any_eq_true]
-  constructor
-  · rintro ⟨x, hx, he⟩
-    unfold surfEq at he
-    simp only [Bool.and_eq_true, beq_iff_eq] at he
-    have := h _ _ he.2
-    subst this
-    exact hx
-  · intro hs
-    exact ⟨s, hs, by simp [surfEq]⟩
+theorem memS_iff (st : St) (s : ObjId) (l : List ObjId) : memS st s l = true ↔ s ∈ l := by
+  simp [memS]
 
 @[simp] theorem updCell_cellOf (st : St) (c : ObjId) (f : CellSt → CellSt) (x : ObjId) :
     (st.updCell c f).cellOf x = if x = c then f (st.cellOf c) else st.cellOf x := rfl
 
 /-- what every helper that only registers dividers with cells guarantees -/
 structure Ext (st st' : St) : Prop where
-  shape : st'.sshape = st.sshape
   geom : ∀ x, (st'.cellOf x).geom = (st.cellOf x).geom
   surfs : ∀ x s, s ∈ (st.cellOf x).surfs → s ∈ (st'.cellOf x).surfs
   comps : ∀ x d, d ∈ (st.cellOf x).comps → d ∈ (st'.cellOf x).comps
   members : ∀ k, st'.members k = st.members k
   linked : ∀ k o, st.linked k o = true → st'.linked k o = true
+  mat : ∀ x, (st'.cellOf x).mat = (st.cellOf x).mat
+  univ : ∀ x, (st'.cellOf x).univ = (st.cellOf x).univ
+  cont : ∀ x, (st.cellOf x).contLinked = true → (st'.cellOf x).contLinked = true
+  /-- a surface that is new in a container whose collection is linked to the problem has been linked -/
+  newSurf : ∀ x s, s ∈ (st'.cellOf x).surfs →
+    s ∈ (st.cellOf x).surfs ∨ ((st.cellOf x).contLinked = true → st'.slink s = true)
 
 theorem Ext.refl (st : St) : Ext st st :=
-  ⟨rfl, fun _ => rfl, fun _ _ h => h, fun _ _ h => h, fun _ => rfl, fun _ _ h => h⟩
+  ⟨fun _ => rfl, fun _ _ h => h, fun _ _ h => h, fun _ => rfl, fun _ _ h => h, fun _ => rfl, fun _ => rfl,
+   fun _ h => h, fun _ _ h => Or.inl h⟩
 
 theorem Ext.trans {a b c : St} (h1 : Ext a b) (h2 : Ext b c) : Ext a c :=
-  ⟨h2.shape.trans h1.shape, fun x => (h2.geom x).trans (h1.geom x),
+  ⟨fun x => (h2.geom x).trans (h1.geom x),
    fun x s h => h2.surfs x s (h1.surfs x s h), fun x d h => h2.comps x d (h1.comps x d h),
-   fun k => (h2.members k).trans (h1.members k), fun k o h => h2.linked k o (h1.linked k o h)⟩
-
-theorem NoClones.ext {st st' : St} (h : NoClones st) (e : Ext st st') : NoClones st' := by
-  intro a b hab
-  rw [e.shape] at hab
-  exact h a b hab
+   fun k => (h2.members k).trans (h1.members k), fun k o h => h2.linked k o (h1.linked k o h),
+   fun x => (h2.mat x).trans (h1.mat x), fun x => (h2.univ x).trans (h1.univ x),
+   fun x h => h2.cont x (h1.cont x h),
+   fun x s h => by
+     rcases h2.newSurf x s h with hb | hb
+     · rcases h1.newSurf x s hb with ha | ha
+       · exact Or.inl ha
+       · exact Or.inr (fun hc => h2.linked .surface s (ha hc))
+     · exact Or.inr (fun hc => hb (h1.cont x hc))⟩
 
 theorem updCell_ext (st : St) (c : ObjId) (f : CellSt → CellSt)
     (hg : (f (st.cellOf c)).geom = (st.cellOf c).geom)
-    (hs : ∀ s, s ∈ (st.cellOf c).surfs → s ∈ (f (st.cellOf c)).surfs)
+    (hs : (f (st.cellOf c)).surfs = (st.cellOf c).surfs)
     (hc : ∀ d, d ∈ (st.cellOf c).comps → d ∈ (f (st.cellOf c)).comps)
-    (hl : (st.cellOf c).link = true → (f (st.cellOf c)).link = true) : Ext st (st.updCell c f) := by
-  refine ⟨rfl, ?_, ?_, ?_, ?_, ?_⟩
+    (hl : (st.cellOf c).link = true → (f (st.cellOf c)).link = true)
+    (hm : (f (st.cellOf c)).mat = (st.cellOf c).mat) (hu : (f (st.cellOf c)).univ = (st.cellOf c).univ)
+    (hcl : (st.cellOf c).contLinked = true → (f (st.cellOf c)).contLinked = true) :
+    Ext st (st.updCell c f) := by
+  refine ⟨?_, ?_, ?_, ?_, ?_, ?_, ?_, ?_, ?_⟩
   · intro x; simp only [updCell_cellOf]; split
     · subst_vars; exact hg
     · rfl
   · intro x t ht; simp only [updCell_cellOf]; split
-    · subst_vars; exact hs t ht
+    · subst_vars; rw [hs]; exact ht
     · exact ht
   · intro x t ht; simp only [updCell_cellOf]; split
     · subst_vars; exact hc t ht
@@ -70,33 +69,44 @@ theorem updCell_ext (st : St) (c : ObjId) (f : CellSt → CellSt)
       · subst_vars; exact hl h
       · exact h
     all_goals exact h
-
-theorem slink_ext (st : St) (s : ObjId) : Ext st { st with slink := upd st.slink s true } := by
-  refine ⟨rfl, fun _ => rfl, fun _ _ h => h, fun _ _ h => h, ?_, ?_⟩
-  · intro k; cases k <;> rfl
-  · intro k o h
-    cases k
+  · intro x; simp only [updCell_cellOf]; split
+    · subst_vars; exact hm
+    · rfl
+  · intro x; simp only [updCell_cellOf]; split
+    · subst_vars; exact hu
+    · rfl
+  · intro x h; simp only [updCell_cellOf]; split
+    · subst_vars; exact hcl h
     · exact h
-    · simp only [St.linked, upd] at h ⊢
-      split
-      · rfl
-      · exact h
-    all_goals exact h
+  · intro x t ht
+    simp only [updCell_cellOf] at ht
+    split at ht
+    · subst_vars; rw [hs] at ht; exact Or.inl ht
+    · exact Or.inl ht
 
 theorem linkCell_ext (st : St) (o : ObjId) : Ext st (st.linkCell o) := by
-  unfold St.linkCell
-  refine ⟨rfl, ?_, ?_, ?_, ?_, ?_⟩
-  · intro x; simp only [updCell_cellOf]; split <;> (try subst_vars) <;> rfl
-  · intro x t ht; simp only [updCell_cellOf]; split <;> (try subst_vars) <;> exact ht
-  · intro x t ht; simp only [updCell_cellOf]; split <;> (try subst_vars) <;> exact ht
+  have hcell : ∀ x, ((st.linkCell o).cellOf x).geom = (st.cellOf x).geom ∧
+      ((st.linkCell o).cellOf x).surfs = (st.cellOf x).surfs ∧
+      ((st.linkCell o).cellOf x).comps = (st.cellOf x).comps ∧
+      ((st.linkCell o).cellOf x).mat = (st.cellOf x).mat ∧
+      ((st.linkCell o).cellOf x).univ = (st.cellOf x).univ ∧
+      ((st.cellOf x).contLinked = true → ((st.linkCell o).cellOf x).contLinked = true) ∧
+      ((st.cellOf x).link = true → ((st.linkCell o).cellOf x).link = true) := by
+    intro x
+    unfold St.linkCell
+    simp only [updCell_cellOf]
+    split
+    · subst_vars; exact ⟨rfl, rfl, rfl, rfl, rfl, fun _ => rfl, fun _ => rfl⟩
+    · exact ⟨rfl, rfl, rfl, rfl, rfl, fun h => h, fun h => h⟩
+  refine ⟨fun x => (hcell x).1, fun x t ht => by rw [(hcell x).2.1]; exact ht,
+    fun x t ht => by rw [(hcell x).2.2.1]; exact ht, ?_, ?_, fun x => (hcell x).2.2.2.1,
+    fun x => (hcell x).2.2.2.2.1, fun x => (hcell x).2.2.2.2.2.1,
+    fun x t ht => Or.inl (by rw [(hcell x).2.1] at ht; exact ht)⟩
   · intro k; cases k <;> rfl
   · intro k x h
     cases k
-    · simp only [St.linked, updCell_cellOf] at h ⊢
-      split
-      · rfl
-      · exact h
-    all_goals (simp only [St.linked] at h ⊢; first | exact h | (split <;> first | rfl | exact h))
+    · exact (hcell x).2.2.2.2.2.2 h
+    all_goals (unfold St.linkCell; simp only [St.linked] at h ⊢; first | exact h | (split <;> first | rfl | exact h))
 
 theorem cellSurfAppend_spec (st : St) (c s : ObjId) :
     Ext st (cellSurfAppend st c s).1 ∧
@@ -105,11 +115,37 @@ theorem cellSurfAppend_spec (st : St) (c s : ObjId) :
   simp only
   split
   · exact ⟨Ext.refl st, fun h => by cases h⟩
-  · have e1 : Ext st (st.updCell c (fun cs => { cs with surfs := cs.surfs ++ [s] })) :=
-      updCell_ext st c _ rfl (fun t ht => by simp [ht]) (fun _ h => h) (fun h => h)
-    split
-    · exact ⟨e1.trans (slink_ext _ s), fun _ => by simp⟩
-    · exact ⟨e1, fun _ => by simp⟩
+  · refine ⟨⟨?_, ?_, ?_, ?_, ?_, ?_, ?_, ?_, ?_⟩, fun _ => by simp⟩
+    · intro x; simp only [updCell_cellOf]; split <;> (try subst_vars) <;> rfl
+    · intro x t ht; simp only [updCell_cellOf]; split
+      · subst_vars; simp [ht]
+      · exact ht
+    · intro x t ht; simp only [updCell_cellOf]; split <;> (try subst_vars) <;> exact ht
+    · intro k; cases k <;> rfl
+    · intro k o h
+      cases k
+      · simp only [St.linked, updCell_cellOf] at h ⊢
+        split <;> (try subst_vars) <;> exact h
+      · simp only [St.linked] at h ⊢
+        split
+        · simp only [upd]; split
+          · rfl
+          · exact h
+        · exact h
+      all_goals exact h
+    · intro x; simp only [updCell_cellOf]; split <;> (try subst_vars) <;> rfl
+    · intro x; simp only [updCell_cellOf]; split <;> (try subst_vars) <;> rfl
+    · intro x h; simp only [updCell_cellOf]; split <;> (try subst_vars) <;> exact h
+    · intro x t ht
+      simp only [updCell_cellOf] at ht
+      split at ht
+      · subst_vars
+        simp only [List.mem_append, List.mem_singleton] at ht
+        rcases ht with ht | rfl
+        · exact Or.inl ht
+        · refine Or.inr (fun hc => ?_)
+          simp [hc, upd]
+      · exact Or.inl ht
 
 theorem cellCompAppend_spec (st : St) (c d : ObjId) :
     Ext st (cellCompAppend st c d).1 ∧
@@ -119,7 +155,7 @@ theorem cellCompAppend_spec (st : St) (c d : ObjId) :
   split
   · exact ⟨Ext.refl st, fun h => by cases h⟩
   · have e1 : Ext st (st.updCell c (fun cs => { cs with comps := cs.comps ++ [d] })) :=
-      updCell_ext st c _ rfl (fun _ h => h) (fun t ht => by simp [ht]) (fun h => h)
+      updCell_ext st c _ rfl rfl (fun t ht => by simp [ht]) (fun h => h) rfl rfl (fun h => h)
     have hm : d ∈ ((st.updCell c (fun cs => { cs with comps := cs.comps ++ [d] })).cellOf c).comps := by simp
     split
     · have e2 := linkCell_ext (st.updCell c (fun cs => { cs with comps := cs.comps ++ [d] })) d
@@ -128,29 +164,29 @@ theorem cellCompAppend_spec (st : St) (c d : ObjId) :
 
 theorem addSurfs_spec (c : ObjId) : ∀ (l : List ObjId) (st : St),
     Ext st (addSurfs c l st).1 ∧
-    ((addSurfs c l st).2 = none → NoClones st → ∀ s ∈ l, s ∈ ((addSurfs c l st).1.cellOf c).surfs) := by
+    ((addSurfs c l st).2 = none → ∀ s ∈ l, s ∈ ((addSurfs c l st).1.cellOf c).surfs) := by
   intro l
   induction l with
-  | nil => intro st; exact ⟨Ext.refl st, fun _ _ s hs => by cases hs⟩
+  | nil => intro st; exact ⟨Ext.refl st, fun _ s hs => by cases hs⟩
   | cons a t ih =>
     intro st
     simp only [addSurfs]
     split
     · rename_i hm
       obtain ⟨e, hs⟩ := ih st
-      refine ⟨e, fun hok hn s hmem => ?_⟩
+      refine ⟨e, fun hok s hmem => ?_⟩
       rcases List.mem_cons.mp hmem with rfl | ht
-      · exact e.surfs c _ ((memS_iff hn _ _).mp hm)
-      · exact hs hok hn s ht
+      · exact e.surfs c _ ((memS_iff _ _ _).mp hm)
+      · exact hs hok s ht
     · have hsp := cellSurfAppend_spec st c a
       split
       · rename_i st1 heq
         rw [heq] at hsp
         obtain ⟨e, hs⟩ := ih st1
-        refine ⟨hsp.1.trans e, fun hok hn s hmem => ?_⟩
+        refine ⟨hsp.1.trans e, fun hok s hmem => ?_⟩
         rcases List.mem_cons.mp hmem with rfl | ht
         · exact e.surfs c _ (hsp.2 rfl)
-        · exact hs hok (hn.ext hsp.1) s ht
+        · exact hs hok s ht
       · rename_i r hne
         refine ⟨hsp.1, fun hok => ?_⟩
         exfalso
@@ -195,17 +231,12 @@ def Good (st : St) (c : ObjId) (g : HS) : Prop :=
 theorem Good.ext {st st' : St} {c : ObjId} {g : HS} (h : Good st c g) (e : Ext st st') : Good st' c g :=
   ⟨h.1, fun s hs => e.surfs c s (h.2.1 s hs), fun d hd => e.comps c d (h.2.2 d hd)⟩
 
-theorem memS_of_mem (st : St) (s : ObjId) (l : List ObjId) (h : s ∈ l) : memS st s l = true := by
-  unfold memS
-  rw [List.any_eq_true]
-  exact ⟨s, h, by simp [surfEq]⟩
+theorem memS_of_mem (st : St) (s : ObjId) (l : List ObjId) (h : s ∈ l) : memS st s l = true :=
+  (memS_iff st s l).mpr h
 
 theorem memS_mono (st : St) (s : ObjId) (l l' : List ObjId) (hsub : ∀ x ∈ l, x ∈ l') (h : memS st s l = true) :
-    memS st s l' = true := by
-  unfold memS at h ⊢
-  rw [List.any_eq_true] at h ⊢
-  obtain ⟨x, hx, he⟩ := h
-  exact ⟨x, hsub x hx, he⟩
+    memS st s l' = true :=
+  (memS_iff st s l').mpr (hsub s ((memS_iff st s l).mp h))
 
 /-- the first pass over the surfaces: everything that was looked at is `in` the container or among the new ones -/
 theorem newSurfs_spec (st : St) (c : ObjId) : ∀ (l acc ns : List ObjId), newSurfs st c l acc = some ns →
@@ -260,7 +291,7 @@ theorem newComps_spec (st : St) (c : ObjId) : ∀ (l acc nc : List ObjId), newCo
 
 theorem addChildren_spec (st : St) (c : ObjId) (other : HS) :
     Ext st (addChildren st c other).1 ∧
-    ((addChildren st c other).2 = none → NoClones st →
+    ((addChildren st c other).2 = none →
       (∀ s ∈ other.surfs, s ∈ ((addChildren st c other).1.cellOf c).surfs) ∧
       (∀ d ∈ other.comps, d ∈ ((addChildren st c other).1.cellOf c).comps)) := by
   unfold addChildren
@@ -273,10 +304,10 @@ theorem addChildren_spec (st : St) (c : ObjId) (other : HS) :
     · rename_i st1 heq
       rw [heq] at h1
       have h2 := addSurfs_spec c ns st1
-      refine ⟨h1.1.trans h2.1, fun hok hn => ⟨fun s hs' => ?_, fun d hd => ?_⟩⟩
+      refine ⟨h1.1.trans h2.1, fun hok => ⟨fun s hs' => ?_, fun d hd => ?_⟩⟩
       · rcases hs s hs' with hm | hm
-        · exact h2.1.surfs c s (h1.1.surfs c s ((memS_iff hn _ _).mp hm))
-        · exact h2.2 hok (hn.ext h1.1) s ((memS_iff hn _ _).mp hm)
+        · exact h2.1.surfs c s (h1.1.surfs c s ((memS_iff _ _ _).mp hm))
+        · exact h2.2 hok s ((memS_iff _ _ _).mp hm)
       · rcases hc d hd with hm | hm
         · exact h2.1.comps c d (h1.1.comps c d hm)
         · exact h2.1.comps c d (h1.2 rfl d hm)
@@ -315,7 +346,7 @@ theorem setCell_of_allCell (c : ObjId) (g : HS) (h : g.allCell c = true) : g.set
 theorem linkChild_spec (st : St) (c : ObjId) (child : HS) :
     Ext st (linkChild st (some c) child).1.1 ∧
     ((linkChild st (some c) child).1.2 = none → (linkChild st (some c) child).2 = child.setCell c) ∧
-    ((linkChild st (some c) child).1.2 = none → NoClones st →
+    ((linkChild st (some c) child).1.2 = none →
       Good (linkChild st (some c) child).1.1 c (child.setCell c)) := by
   have h := addChildren_spec st c child
   unfold linkChild
@@ -328,8 +359,8 @@ theorem linkChild_spec (st : St) (c : ObjId) (child : HS) :
     exact ⟨h.1, fun hh => (by cases hh), fun hh => (by cases hh)⟩
   | none =>
     dsimp only at h ⊢
-    refine ⟨h.1, fun _ => rfl, fun _ hn => ?_⟩
-    have := h.2 rfl hn
+    refine ⟨h.1, fun _ => rfl, fun _ => ?_⟩
+    have := h.2 rfl
     exact ⟨setCell_allCell c child, by simpa using this.1, by simpa using this.2⟩
 
 theorem good_bin {st : St} {c : ObjId} {u : Bool} {l r : HS} {p : Option ObjId} :
@@ -352,7 +383,7 @@ theorem good_compl {st : St} {c : ObjId} {l : HS} {p : Option ObjId} :
   · rintro ⟨hp, hl, hs, hc⟩; exact ⟨⟨hp, hl⟩, hs, hc⟩
 
 theorem iopTail_spec (u0 : Bool) (l : HS) (c : ObjId) (other : HS) (st1 : St) (r1 newRight : HS)
-    (hn : NoClones st1) (hgl : Good st1 c l) (hr1 : Good st1 c r1) :
+    (hgl : Good st1 c l) (hr1 : Good st1 c r1) :
     Ext st1 (iopTail u0 l (some c) other st1 r1 newRight).1.1 ∧
     Good (iopTail u0 l (some c) other st1 r1 newRight).1.1 c (iopTail u0 l (some c) other st1 r1 newRight).2.1 := by
   unfold iopTail
@@ -364,7 +395,7 @@ theorem iopTail_spec (u0 : Bool) (l : HS) (c : ObjId) (other : HS) (st1 : St) (r
   | none =>
     have hg2 : Good st2 c r2 := by
       have h1 := hl.2.1 rfl
-      have h2 := hl.2.2 rfl hn
+      have h2 := hl.2.2 rfl
       simp only at h1 h2
       rw [h1]; exact h2
     have ha := addChildren_spec st2 c other
@@ -373,14 +404,14 @@ theorem iopTail_spec (u0 : Bool) (l : HS) (c : ObjId) (other : HS) (st1 : St) (r
 /-- `__iand__` / `__ior__` in place: whatever happens (also when the operand is refused), the tree
     that stays in the cell is registered with the cell. -/
 theorem iop_spec (u : Bool) (c : ObjId) (other : HS) : ∀ (self : HS) (st : St),
-    NoClones st → Good st c self →
+    Good st c self →
     Ext st (iop u st self other).1.1 ∧ Good (iop u st self other).1.1 c (iop u st self other).2.1 := by
   intro self
   induction self with
-  | leaf ic d s p => intro st _ hg; simp only [iop]; exact ⟨Ext.refl st, hg⟩
-  | compl l p _ => intro st _ hg; simp only [iop]; exact ⟨Ext.refl st, hg⟩
+  | leaf ic d s p => intro st hg; simp only [iop]; exact ⟨Ext.refl st, hg⟩
+  | compl l p _ => intro st hg; simp only [iop]; exact ⟨Ext.refl st, hg⟩
   | bin u0 l r p _ ihr =>
-    intro st hn hg
+    intro st hg
     obtain ⟨hp, hgl, hgr⟩ := good_bin.mp hg
     subst hp
     by_cases hu : (u0 != u) = true
@@ -395,24 +426,24 @@ theorem iop_spec (u : Bool) (c : ObjId) (other : HS) : ∀ (self : HS) (st : St)
         | some err => exact ⟨hl.1, good_bin.mpr ⟨rfl, hgl.ext hl.1, hgr.ext hl.1⟩⟩
         | none =>
           have hc := hl.2.1 rfl
-          have hgood := hl.2.2 rfl hn
+          have hgood := hl.2.2 rfl
           simp only at hc hgood
           refine ⟨hl.1, good_bin.mpr ⟨rfl, hgl.ext hl.1, ?_⟩⟩
           rw [hc]; exact hgood
       | compl rl rq =>
         simp only [iop, hu, if_false, Bool.false_eq_true]
-        exact iopTail_spec u0 l c other st _ _ hn hgl hgr
+        exact iopTail_spec u0 l c other st _ _ hgl hgr
       | bin ru rl rr rq =>
         rw [iop]
         case x_4 => intro _ _ _ _ h; cases h
         simp only [hu, if_false, Bool.false_eq_true]
-        have ih := ihr st hn hgr
+        have ih := ihr st hgr
         generalize iop u st (.bin ru rl rr rq) other = res at ih ⊢
         obtain ⟨⟨st1, e1⟩, r1, ret⟩ := res
         cases e1 with
         | some err => exact ⟨ih.1, good_bin.mpr ⟨rfl, hgl.ext ih.1, ih.2⟩⟩
         | none =>
-          have := iopTail_spec u0 l c other st1 r1 (retOr r1 ret) (hn.ext ih.1) (hgl.ext ih.1) ih.2
+          have := iopTail_spec u0 l c other st1 r1 (retOr r1 ret) (hgl.ext ih.1) ih.2
           exact ⟨ih.1.trans this.1, this.2⟩
 
 /-- a sub-tree of a registered tree is registered -/
@@ -545,5 +576,100 @@ theorem iop_linkExt (u : Bool) (other : HS) : ∀ (self : HS) (st : St),
         cases e1 with
         | some err => exact ih
         | none => exact ih.trans (iopTail_linkExt u0 l p other st1 r1 (retOr r1 ret))
+
+/-! ### what the geometry helpers guarantee about the things a cell points at -/
+
+/-- members untouched, links only set, material / universe of every cell untouched, linked containers stay
+    linked, and a surface that is new in a linked container has been linked -/
+structure PExt (st st' : St) : Prop where
+  members : ∀ k, st'.members k = st.members k
+  linked : ∀ k o, st.linked k o = true → st'.linked k o = true
+  mat : ∀ x, (st'.cellOf x).mat = (st.cellOf x).mat
+  univ : ∀ x, (st'.cellOf x).univ = (st.cellOf x).univ
+  cont : ∀ x, (st.cellOf x).contLinked = true → (st'.cellOf x).contLinked = true
+  newSurf : ∀ x s, s ∈ (st'.cellOf x).surfs →
+    s ∈ (st.cellOf x).surfs ∨ ((st.cellOf x).contLinked = true → st'.slink s = true)
+
+theorem PExt.refl (st : St) : PExt st st :=
+  ⟨fun _ => rfl, fun _ _ h => h, fun _ => rfl, fun _ => rfl, fun _ h => h, fun _ _ h => Or.inl h⟩
+
+theorem PExt.trans {a b c : St} (h1 : PExt a b) (h2 : PExt b c) : PExt a c :=
+  ⟨fun k => (h2.members k).trans (h1.members k), fun k o h => h2.linked k o (h1.linked k o h),
+   fun x => (h2.mat x).trans (h1.mat x), fun x => (h2.univ x).trans (h1.univ x),
+   fun x h => h2.cont x (h1.cont x h),
+   fun x s h => by
+     rcases h2.newSurf x s h with hb | hb
+     · rcases h1.newSurf x s hb with ha | ha
+       · exact Or.inl ha
+       · exact Or.inr (fun hc => h2.linked .surface s (ha hc))
+     · exact Or.inr (fun hc => hb (h1.cont x hc))⟩
+
+theorem Ext.pExt {st st' : St} (e : Ext st st') : PExt st st' :=
+  ⟨e.members, e.linked, e.mat, e.univ, e.cont, e.newSurf⟩
+
+theorem PExt.toLink {st st' : St} (e : PExt st st') : LinkExt st st' := ⟨e.members, e.linked⟩
+
+/-- storing a geometry (`cell._geometry = g`) -/
+theorem pExt_updGeom (st : St) (c : ObjId) (g : Option HS) :
+    PExt st (st.updCell c (fun cs => { cs with geom := g })) := by
+  refine ⟨fun k => by cases k <;> rfl, ?_, ?_, ?_, ?_, ?_⟩
+  · intro k o h
+    cases k
+    · simp only [St.linked, updCell_cellOf] at h ⊢
+      split <;> (try subst_vars) <;> exact h
+    all_goals exact h
+  · intro x; simp only [updCell_cellOf]; split <;> (try subst_vars) <;> rfl
+  · intro x; simp only [updCell_cellOf]; split <;> (try subst_vars) <;> rfl
+  · intro x h; simp only [updCell_cellOf]; split <;> (try subst_vars) <;> exact h
+  · intro x t ht
+    simp only [updCell_cellOf] at ht
+    split at ht <;> (try subst_vars) <;> exact Or.inl ht
+
+theorem iopTail_pExt (u0 : Bool) (l : HS) (p : Option ObjId) (other : HS) (st1 : St) (r1 newRight : HS) :
+    PExt st1 (iopTail u0 l p other st1 r1 newRight).1.1 := by
+  unfold iopTail
+  cases p with
+  | none => simp only [linkChild]; exact PExt.refl st1
+  | some c =>
+    have hl := (linkChild_spec st1 c newRight).1
+    generalize linkChild st1 (some c) newRight = lres at hl ⊢
+    obtain ⟨⟨st2, e2⟩, r2⟩ := lres
+    cases e2 with
+    | some err => exact hl.pExt
+    | none => exact hl.pExt.trans (addChildren_spec st2 c other).1.pExt
+
+theorem iop_pExt (u : Bool) (other : HS) : ∀ (self : HS) (st : St),
+    PExt st (iop u st self other).1.1 := by
+  intro self
+  induction self with
+  | leaf ic d s p => intro st; simp only [iop]; exact PExt.refl st
+  | compl l p _ => intro st; simp only [iop]; exact PExt.refl st
+  | bin u0 l r p _ ihr =>
+    intro st
+    by_cases hu : (u0 != u) = true
+    · cases r <;> (simp only [iop, hu, if_true]; exact PExt.refl st)
+    · cases r with
+      | leaf ic d s q =>
+        simp only [iop, hu, if_false, Bool.false_eq_true]
+        cases p with
+        | none => simp only [linkChild]; exact PExt.refl st
+        | some c =>
+          have hl := (linkChild_spec st c (.bin u (.leaf ic d s q) other none)).1
+          generalize linkChild st (some c) (.bin u (.leaf ic d s q) other none) = lres at hl ⊢
+          obtain ⟨⟨st2, e2⟩, r2⟩ := lres
+          cases e2 <;> exact hl.pExt
+      | compl rl rq =>
+        simp only [iop, hu, if_false, Bool.false_eq_true]
+        exact iopTail_pExt u0 l p other st _ _
+      | bin ru rl rr rq =>
+        rw [iop]
+        case x_4 => intro _ _ _ _ h; cases h
+        simp only [hu, if_false, Bool.false_eq_true]
+        have ih := ihr st
+        generalize iop u st (.bin ru rl rr rq) other = res at ih ⊢
+        obtain ⟨⟨st1, e1⟩, r1, ret⟩ := res
+        cases e1 with
+        | some err => exact ih
+        | none => exact ih.trans (iopTail_pExt u0 l p other st1 r1 (retOr r1 ret))
 
 end MontePyVerif.Links
